@@ -15,6 +15,7 @@ RULE = ("constructor: every dict over a non-empty subset of {0,1}^w with integer
         "list of distinct in-range qubits (all permutations of all non-empty subsets) on w<=W bits vs exact Fraction marginals, source compared with a snapshot; "
         "distances: all ordered pairs of a pool of distributions (equal supports in different insertion orders included) x kernel widths: MMD symmetric, >= 0, "
         "0 on (p,p) and on equal copies; clipped NLL >= entropy - log(1+K eps); JS symmetric; save/load. non-trivial = at least two outcomes with different weights")
+RULE += ' Also: kernel widths as tuple / numpy array; tiny negative weights (-1e-13, -1e-15, -1e-300) must be rejected.'
 ASSUMPTIONS = ["float sums compared at 1e-12", "distances are only compared between distributions on the same number of subsystems"]
 BOUNDS = {"quick": {"w_ctor": 3, "w_marginal": 5, "pool": "80 + reordered/zero-key variants", "sigmas": 4}, "thorough": {"w_ctor": 3, "w_marginal": 6, "pool": "255 (weights 0..3 on 2 bits) + variants", "sigmas": 6}}
 TOL = 1e-12
